@@ -20,7 +20,7 @@ func init() {
 		Level: "model_checking",
 		Rule: "12 chain contexts ({.,@,$} x {plain,&,~,=}) x 3 call forms (property, literal, variable) x receivers (arrays of n<=4 (thorough 5) tagged elements, each in {value,nil-result,raise,nil element}, with r/comb either props of the elements' prototype or answered by its _missing (n<=3, thorough 4), and with the chain written on one line or on a new line (multi-line spelling, n<=2, thorough 3); scalar receivers; " +
 			"int/str/range/obj/map/iterator receivers with 3 callee variants) x chain argument {absent, [], {}, %{}} / initial accumulator {absent, given}; result and call trace compared with a chain model; every receiver kind reused by five chains in a row (iterators are copied, not advanced); every pair of list chains ((context, form) x (context, form)) digesting 1-2 results into the same array variable of length 0..8, all three values read afterwards; " +
-			"non-trivial = at least one element whose result is nil or a raise, a nil element, or a chain argument; distinct = distinct source; round 7: Receivers also include maps with scalar and non-scalar keys mixed and a descending str range.",
+			"non-trivial = at least one element whose result is nil or a raise, a nil element, or a chain argument; distinct = distinct source; round 7: Receivers also include maps with scalar and non-scalar keys mixed and a descending str range.; round 8: One chain expression written once inside a function is evaluated for three receivers in turn (every context x form, 1284 cases); array-keyed pairs are digested into maps holding equal keys; nil elements that are not the cached nil object (Nil.new).",
 		Assumptions: []string{
 			"don't-care: `~@` applied to a nil element (kept nil vs dropped) is not generated",
 			"Either values are not used as chain elements (routed through _literalProxy; C13's subject)",
